@@ -5,6 +5,11 @@ Protocol (binary in, JSON lines out, one item at a time):
                      flags: 1 = also PSD.read with raw payloads (what the Lean skeleton model computes)
                             2 = export level 1 (document composite() and topil()) when the file opens
                             4 = export level 2 (first layers: topil(), numpy())
+                            8 = afterwards run the BATTERY in the same interpreter (state leaking from one open into the
+                                next): headers that must be rejected, good files that must open exactly as they did when
+                                this process was fresh.  The battery is a JSON file named by env C06_BATTERY
+                                ({"reject": [[name, hex], ..], "same": [[name, hex], ..]}); its fresh-state reference is
+                                taken right after start-up and reported in the hello line.
                             128 = watchdog self-test: the payload names a misbehaviour (hang, sleep, segv, alloc, exit, die, rss)
   worker -> parent   {"hello":..} once, then per item {"id","stage":"open",...} and, when an export was asked
                      for and the file opened, {"id","stage":"export",...}.
@@ -159,6 +164,59 @@ def main():
             del e
             return o, time.perf_counter() - t
 
+    # ---- the battery: fresh-state reference
+    import hashlib
+
+    def digest(d):
+        """what a caller sees of an opened document: the re-written record bytes and the layer tree"""
+        h = hashlib.sha1()
+        f = io.BytesIO()
+        d._record.write(f)
+        h.update(f.getvalue())
+        for l in d.descendants():
+            h.update(repr((l.kind, l.name, l.bbox, l.visible, l.opacity, str(l.blend_mode), l.parent is d)).encode())
+        h.update(repr((d.width, d.height, d.depth, d.channels, str(d.color_mode), d.version)).encode())
+        return h.hexdigest()[:16]
+
+    bat_reject, bat_same, bat_ref = [], [], {}
+    bpath = os.environ.get("C06_BATTERY")
+    if bpath:
+        try:
+            with open(bpath) as f:
+                bj = json.load(f)
+        except (OSError, ValueError):
+            bj = {}
+        for nm, hx_ in bj.get("reject", []):
+            b_ = bytes.fromhex(hx_)
+            o_, _t = guarded(lambda: PSDImage.open(io.BytesIO(b_)) and None)
+            bat_ref[nm] = "ok" if o_["k"] == "ok" else "rejected:" + o_["cls"]
+            if o_["k"] == "exception":
+                bat_reject.append((nm, b_))
+        for nm, hx_ in bj.get("same", []):
+            b_ = bytes.fromhex(hx_)
+            o_, _t = guarded(lambda: {"digest": digest(PSDImage.open(io.BytesIO(b_)))})
+            bat_ref[nm] = o_.get("digest") if o_["k"] == "ok" else "raises:" + o_["cls"]
+            if o_["k"] == "ok":
+                # the same file twice in a fresh process must already agree, otherwise it is useless as a reference
+                o2, _t = guarded(lambda: {"digest": digest(PSDImage.open(io.BytesIO(b_)))})
+                if o2.get("digest") == o_["digest"]:
+                    bat_same.append((nm, b_, o_["digest"]))
+
+    def run_battery():
+        t = time.perf_counter()
+        bad = []
+        for nm, b_ in bat_reject:
+            o_, _t = guarded(lambda: PSDImage.open(io.BytesIO(b_)) and None)
+            if o_["k"] != "exception":
+                bad.append({"name": nm, "kind": "reject", "got": o_["k"] if o_["k"] != "ok" else "opened"})
+        for nm, b_, ref in bat_same:
+            o_, _t = guarded(lambda: {"digest": digest(PSDImage.open(io.BytesIO(b_)))})
+            if o_["k"] != "ok":
+                bad.append({"name": nm, "kind": "same", "got": "raises " + o_["cls"] + " at " + o_["where"], "msg": o_["msg"][:100]})
+            elif o_["digest"] != ref:
+                bad.append({"name": nm, "kind": "same", "got": "digest " + o_["digest"], "ref": ref})
+        return {"ran": len(bat_reject) + len(bat_same), "bad": bad, "t": round(time.perf_counter() - t, 4)}
+
     # the parent sends SIGUSR1 before it kills a worker that exceeded the wall-clock limit: the C-level handler
     # writes the Python stack of the stuck main thread to the stderr file (works inside a C loop as well).
     # (A periodic `dump_traceback_later(repeat=True)` was tried first: its watchdog thread walks the frames of the
@@ -167,7 +225,8 @@ def main():
     send({"hello": 1, "pid": os.getpid(), "base_vm": base_vm, "rlimit_as": limit, "base_rss_kb": st.get("VmRSS", 0),
           "hwm_reset": hwm_reset, "recursion_limit": sys.getrecursionlimit(),
           "rle_impl": getattr(__import__("psd_tools.compression", fromlist=["rle_impl"]).rle_impl, "__name__", "?"),
-          "python": sys.version.split()[0], "psd_tools": getattr(psd_tools, "__version__", "?")})
+          "python": sys.version.split()[0], "psd_tools": getattr(psd_tools, "__version__", "?"),
+          "battery": bat_ref})
 
     n_items = 0
     while True:
@@ -237,6 +296,8 @@ def main():
                     tot += max(0, l.width) * max(0, l.height) * max(1, len(l._record.channel_info)) * dep
                 return {"bytes": tot, "layers": nl, "w": doc.width, "h": doc.height}
             msg["declared"], _ = guarded(declared)
+        if (flags & 8) and not want_export:
+            msg["battery"] = run_battery()
         send(msg)
         if want_export:
             ex = {"id": ident, "stage": "export", "ops": {}}
@@ -270,6 +331,8 @@ def main():
             ex["t"] = time.perf_counter() - t0
             ex["peak_kb"], ex["grow_kb"] = mem_after(before)
             ex["maxrss_kb"] = resource.getrusage(resource.RUSAGE_SELF).ru_maxrss
+            if flags & 8:
+                ex["battery"] = run_battery()
             send(ex)
         big = length > (1 << 20) or msg["grow_kb"] > 65536 or msg["open"]["k"] == "memory" or want_export
         holder.clear()
